@@ -127,11 +127,17 @@ def check(ctx: Ctx) -> None:
         cfg = build_cfg(repo, tk, Oracle(repo, tk, precise=True, call_raises=lambda c, f: [("OSError", True)] if callee_attr(c) == "get" else None))
         gets = cfg_nodes_with_call(cfg, lambda c: callee_attr(c) == "get")
         kills = cfg_nodes_with_call(cfg, lambda c: isinstance(c.func, ast.Name) and c.func.id == tk.params()[1])
-        ob.require(len(gets) == 1 and len(kills) >= 1, "termkill: bounded get / killfunc call not found")
+        ob.require(len(gets) == 1, "termkill: wait for the terminate function (reply.get) not found")
+        gc = [c for c in calls_in_node(gets[0]) if callee_attr(c) == "get"][0]
+        to = arg(gc, 0, "timeout")
+        if to is None or not derived_from_param(repo, tk, to, "timeout"):
+            ob.violation(tk, gc, "the wait for the terminate function is not bounded by the timeout: a stuck child is never killed (the kill arm is never reached)")
+        if not kills:
+            ob.violation(tk, gets[0].ast, "when the terminate function times out the kill function is not called: a stuck child is never killed", construct="no killfunc call")
         exc_succ = [m for (m, l) in cfg.succ[gets[0].id] if l.startswith("exc:")]
         p = cfg.must_pass(exc_succ, [cfg.exit.id, cfg.raise_exit.id], {k.id for k in kills})
         ob.site(tk, gets[0].ast, "timeout of the terminate function leads to killfunc()")
-        if p is not None or not exc_succ:
+        if kills and (p is not None or not exc_succ):
             ob.violation(tk, gets[0].ast, "when the terminate function times out the kill function is not called: a stuck child is never killed")
         sp = [c for c in repo.calls_in(tk) if callee_attr(c) == "spawn" and c.args and unparse(c.args[0]) == tk.params()[0]]
         if len(sp) != 1:
